@@ -59,6 +59,11 @@ def hostile():
     res.append(("self_type", b"JSIGHT 0.3\nTYPE @a\n{\n  \"a\": @a\n}\n"))
     res.append(("allof_self", b"JSIGHT 0.3\nTYPE @a\n{ // {allOf: \"@a\"}\n  \"x\": 1\n}\n"))
     res.append(("allof_cycle", b"JSIGHT 0.3\nTYPE @a\n{ // {allOf: \"@b\"}\n  \"x\": 1\n}\nTYPE @b\n{ // {allOf: \"@a\"}\n  \"y\": 1\n}\n"))
+    # the schema library reports an error of one type while another one is compiled (positions must stay in the file)
+    mutual = (b'JSIGHT 0.3\nTYPE @a\n{\n  "x": @nope1,\n  "y": @b,\n  "z": @nope2 | @b\n}\nTYPE @b\n{\n  "a": @a // {optional: true}\n}\n')
+    for k in range(8):          # which of the two errors is reported varies from run to run
+        res.append(("mutual_types_undefined_%d" % k, mutual))
+        res.append(("mutual_types_undefined_tail_%d" % k, mutual + b"# " + b"x" * k + b"\n"))
     res.append(("ref_cycle", b"JSIGHT 0.3\nTYPE @a\n{\n  \"b\": @b\n}\nTYPE @b\n{\n  \"a\": @a\n}\nGET /x\n  200 @a\n"))
     return res
 
